@@ -23,6 +23,10 @@ def pool_inputs(r, n=80):
     base += [(s, "exec") for s in fails]
     specials = ["w = p'/opt/' pf'{name}/bin'\n", "s = 'plain'\n", "![reset!]\n", "f!(x, [1, 2] y)\n", "print!(some raw text)\n", "with! ctx as c:\n    body line\n", "q = pf'{a}' ; t = 'after'\n", "$(echo! x) ; u = ' spaced  out '\n", "v = f!(a[0])\nw = [1, 2]\n"]
     base += [(s, "exec") for s in specials]
+    # implicit concatenations that merge literal parts (helpers that build or extend Constant nodes)
+    base += [(s, "exec") for s in ["greeting = 'hello, ' f'dear {name}!'\n", "s = 'a' 'b' f'{c}' 'd'\n", "t = u'a' f'b{x}'\n", "u = ('x'\n     'y')\n", "v = b'a' b'b'\n", "w = f'{a}' 'tail' f'{b}'\n"]]
+    # the file entry point, failing and succeeding (it keeps per-parse line tables of its own)
+    base += [(s, "file") for s in ["x = 1\ny = (a 1)\n", "import os\nf() = 3\n", "ok = 1\nz = [1, 2]\n", "s = '''a\nb''' 3\n", "$(ls -l)\nq = 2\n", "def g(:\n", "with! c:\n    raw text\n"]]
     for _ in range(n // 4):
         g = pyprog.gen_program(r, fstrings=True, maxdepth=3, nstmts=2)
         if g:
